@@ -178,7 +178,35 @@ func (w *world) runCase(id string, c *caseIn, mid int) (jr jobResult) {
 		return
 	}
 	defer n.close()
-	m, err := w.measure(blk, of, base-1)
+	first := ""
+	if c.Case.Kind == "badroot_next" {
+		// first step of the two-step offer: the correct block (judged on its own node by the case "valid")
+		gb, err := unwire(w.raws[h+1], w.srih)
+		if err != nil {
+			jr.infra = err.Error()
+			return
+		}
+		func() {
+			defer func() {
+				if p := recover(); p != nil {
+					jr.panicked = fmt.Sprint(p)
+				}
+			}()
+			first = "rejected"
+			if n.bc.AddBlock(gb) == nil {
+				first = "accepted"
+			}
+		}()
+		if jr.panicked != "" {
+			return
+		}
+	}
+	// the description is relative to the node's top block at the moment of the offer
+	tipIdx := base - 1
+	if c.Case.Via == "block" {
+		tipIdx = int(n.bc.BlockHeight())
+	}
+	m, err := w.measure(blk, of, tipIdx)
 	if err != nil {
 		jr.infra = err.Error()
 		return
@@ -223,11 +251,11 @@ func (w *world) runCase(id string, c *caseIn, mid int) (jr jobResult) {
 		}
 	}
 	decl := c.Attrs
-	if c.rand || c.Dec != "ok" || c.Case.Kind == "on_chain" {
+	if c.rand || c.Dec != "ok" || c.Case.Kind == "on_chain" || c.Case.Kind == "badroot_next" {
 		decl = m
 	}
 	ev := map[string]any{"event": "offer", "id": id, "src": map[bool]string{true: "rand", false: "table"}[c.rand], "via": c.Case.Via,
-		"state": c.Case.State, "srih": w.srih, "vt": w.vt, "kind": c.Case.Kind, "family": c.Case.Family, "world": w.id, "h": h,
+		"state": c.Case.State, "srih": w.srih, "vt": w.vt, "kind": c.Case.Kind, "family": c.Case.Family, "world": w.id, "h": h, "first_step": first,
 		"pre":   map[string]any{"blkH": int(before.blkH), "hdrs": n.ids(before, offered)},
 		"attrs": m, "decl": decl, "acc": acc, "err": errClass(oerr), "msg": msg,
 		"pred": map[string]any{"acc": c.Pred.Acc, "stage": c.Pred.Stage, "hdr": c.Pred.Hdr, "has": !c.rand && c.Dec == "ok",
